@@ -241,6 +241,50 @@ def worker(case: Dict[str, Any]) -> CaseResult:
         diffs = diff_facts(fa, fb)
         if diffs:
             violations.append(Violation(PROP, "structurally-equal", "\n".join(diffs)[:1500], fl, replay_case, mech="c16:structurally-equal:" + diffs[0].split("/")[1] if "/" in diffs[0] else "c16:structurally-equal"))
+        # ---- a second step of the history: the schema is edited a little and generated again onto the existing target; what is on disk afterwards
+        # must be what a fresh generation of the edited schema gives (a target that still describes the old schema no longer reproduces its source)
+        if case.get("regen") and not violations:
+            import re as _re
+            kind = case["regen"]
+            sdl2 = sdl
+            if kind == "string-whitespace":
+                # only white space inside string literals changes (descriptions, default values, deprecation reasons)
+                sdl2 = _re.sub(r'"([^"\n\\]*[^ "\n\\]) ([^ "\n\\][^"\n\\]*)"', lambda m_: '"%s   %s"' % (m_.group(1), m_.group(2)), sdl, count=3)
+                if sdl2 == sdl:
+                    kind = "appended-type"
+            if kind == "appended-type":
+                sdl2 = sdl + "\ntype VfAddedLater {\n  note: String\n}\n"
+            elif kind == "case-change":
+                sdl2 = sdl.replace("description", "Description").replace("plain", "Plain")
+                if sdl2 == sdl:
+                    sdl2 = sdl + "\nscalar VfAddedScalar\n"
+            try:
+                ok2 = not validate_schema(build_schema(sdl2))
+            except Exception:  # noqa: BLE001
+                ok2 = False
+            if ok2 and sdl2 != sdl:
+                (root / "schema.graphql").write_text(sdl2, encoding="utf-8")
+                with warnings.catch_warnings():
+                    warnings.simplefilter("ignore")
+                    g2 = run_cli(root, "graphqlschema", cfg)
+                with core.Scratch() as root2:
+                    cfg2 = write_case(root2, sdl2, None, cfg_full)
+                    cfg2.pop("include_comments", None)
+                    with warnings.catch_warnings():
+                        warnings.simplefilter("ignore")
+                        g3 = run_cli(root2, "graphqlschema", cfg2)
+                    stats["regenerations_after_edit"] = 1
+                    stats["regen." + kind] = 1
+                    if g2.ok and g3.ok:
+                        over, fresh = (root / target).read_bytes(), (root2 / target).read_bytes()
+                        if over != fresh:
+                            import difflib
+                            d = "".join(list(difflib.unified_diff(fresh.decode("utf-8", "replace").splitlines(True), over.decode("utf-8", "replace").splitlines(True), "fresh", "regenerated-over-existing", n=0))[:16])
+                            violations.append(Violation(PROP, "regenerated-target-reproduces-edited-source", "edit kind %s: target regenerated over the previous generation differs from a fresh generation of the edited schema\n%s" % (kind, d[:1200]),
+                                                        fl, dict(replay_case, _sdl2=sdl2), mech="c16:regenerate-after-edit:" + kind))
+                    elif g2.ok != g3.ok:
+                        violations.append(Violation(PROP, "regenerated-target-reproduces-edited-source", "edit kind %s: regeneration over the existing target %s, fresh generation %s" % (
+                            kind, "succeeded" if g2.ok else "failed: %s" % g2.exc_type, "succeeded" if g3.ok else "failed: %s" % g3.exc_type), fl, replay_case, mech="c16:regenerate-after-edit:outcome"))
     sample = None
     if case["idx"] < 2:
         sample = {"sdl_head": sdl[:700], "target": target, "names": case.get("names")}
@@ -252,15 +296,18 @@ def run(tier: str, seed: int) -> int:
     r.rule = ("seeded valid schemas with descriptions (multi-line, quotes, backslashes, unicode), deprecations on fields/arguments/input fields/enum values, custom directives "
               "(arguments with defaults, repeatable, several locations), specifiedBy, custom root names, schema description, defaults of every literal kind incl. float extremes; "
               "x target {py (default and custom variable names), graphql, gql}; the produced module is executed / the file parsed in a fresh fork and compared by print_schema "
-              "and structurally; distinct = distinct feature-set")
+              "and structurally; a quarter of the cases then edit the schema (white space inside strings / an appended type / letter case) and generate again onto the existing "
+              "target, which must equal a fresh generation of the edited schema; distinct = distinct feature-set")
     r.assumptions = ["graphql-core build_schema/print_schema are the reference reading of the SDL"]
-    r.floors = {"print_comparisons": 200, "structural_comparisons": 200, "directives_compared": 50}
+    r.floors = {"print_comparisons": 200, "structural_comparisons": 200, "directives_compared": 50, "regenerations_after_edit": 40}
     n = 3000 if tier == "thorough" else 400
     targets = [("schema_out.py", None), ("schema_out.py", ("my_schema", "my_types")), ("out.graphql", None), ("sub_out.gql", None), ("schema_out.py", ("schema_", "TYPES"))]
     cases = []
     for i in range(n):
         t, names = targets[i % len(targets)]
         cases.append({"seed": seed, "idx": i, "target": t, "names": names, "size": ["s", "m", "l"][i % 3], "tier": tier})
+        if i % 4 == 1:
+            cases[-1]["regen"] = ["string-whitespace", "appended-type", "case-change"][(i // 4) % 3]
 
     def on_result(case, res):
         r.add(case, res)
